@@ -8,6 +8,16 @@ E = 'src/encoder.rs'
 T = 'src/types.rs'
 
 
+# mutation canaries (thorough tier): textual mutations of the EXTRACTED copy that must each fail an obligation of the named item
+MUTANTS = [
+    ('encoder::serialize_mappings', '\\n\\s*prev_dst_col = 0;\\n', '\n'),
+    ('encoder::serialize_mappings', 'encode_vlq_diff\\(&mut rv, token\\.get_src_line\\(\\), prev_src_line\\)', 'encode_vlq_diff(&mut rv, token.get_src_line(), prev_src_col)'),
+    ('encoder::serialize_range_mappings', '\\n\\s*idx_in_line = 0;\\n', '\n'),
+    ('encoder::encode_rmi', 'bits\\.chunks\\(6\\)', 'bits.chunks(5)'),
+    ('encoder::encode_vlq_diff', 'i64::from\\(a\\) - i64::from\\(b\\)', 'i64::from(b) - i64::from(a)'),
+]
+
+
 def common_types(u):
     prelude_types(u)
     u.prelude('shim_enumerate.rs')
